@@ -43,6 +43,9 @@ pub fn batches(variant: usize) -> Vec<Batch> {
         // the batches of variant 1, used with max idle 1 and the store-wide collection of expired tracks at EVERY
         // submission: scene 1's track is one epoch old whenever the next batch is prepared
         8 => batches(1),
+        // three scenes, then an EMPTY batch (a frame without detections anywhere), then the first scene again: the empty
+        // batch has nothing to vote but still stands between its neighbours
+        9 => vec![vec![(0, vec![a.clone()]), (1, vec![b.clone()]), (2, vec![a.clone()])], vec![], vec![(0, vec![p1().feat(&fa1(), 0.8)]), (2, vec![p1()])]],
         // three scenes
         _ => vec![vec![(0, vec![a.clone()]), (1, vec![a.clone()]), (2, vec![b.clone()])], vec![(0, vec![p1()]), (2, vec![b.shift(1.0, 1.0)]), (1, vec![p1().shift(0.5, 0.0)])]],
     }
@@ -328,7 +331,7 @@ pub fn replay_batch(file: &serde_json::Value, prop: &str, judge: &dyn Fn(&RunOut
 
 pub fn run_check(tier: Tier) -> Report {
     let rep = Report::new("C06", tier);
-    rep.set_rule("BatchSort and BatchVisualSort x (distance shards, voting shards) in {(1,1),(1,2),(2,2)} (thorough: (1,3)) x batch sequences (2-3 batches over 2-3 scenes with 1-2 detections per scene, a scene absent from one batch, also with max idle 1 and expired tracks collected at every submission; batches of 6 / 9 scenes for 1 / 2 voting threads; for BatchVisualSort also own-area thresholds with scenes of different own-area shares in one batch) x consumer discipline {same thread retrieves before the next submission; a second thread retrieves while the caller submits at once; the same thread retrieves result by result and lists the idle tracks of every scene in between}, then drop; plus a fine tier (every synchronisation operation a decision point, 2 voting threads; two batches of two scenes retrieved before the next submission, deviation bound iterated to 2 quick / 4 thorough; three pipelined batches retrieved by consumer threads, bound 1 quick / 3 thorough): every interleaving of the predict loop, store workers, voting threads and consumer within the bound (window = whole run; bound = preemptions for the 1x1 / retrieve-then-submit configuration, otherwise departures from the deterministic default schedule i.e. delay bounding; bounds iterated 0,1,2,.. and the largest completed one reported per scenario); oracle: one result per submitted scene, one record per detection in order, per scene equal to the simple tracker up to an id bijection, no deadlock / step-cap. A third discipline that violates the proviso (submit a two-scene batch, then the next, before retrieving) must deadlock: built-in detection demo. states = executions.");
+    rep.set_rule("BatchSort and BatchVisualSort x (distance shards, voting shards) in {(1,1),(1,2),(2,2)} (thorough: (1,3)) x batch sequences (2-3 batches over 2-3 scenes with 1-2 detections per scene, a scene absent from one batch, an empty batch between two batches that share scenes, also with max idle 1 and expired tracks collected at every submission; batches of 6 / 9 scenes for 1 / 2 voting threads; for BatchVisualSort also own-area thresholds with scenes of different own-area shares in one batch) x consumer discipline {same thread retrieves before the next submission; a second thread retrieves while the caller submits at once; the same thread retrieves result by result and lists the idle tracks of every scene in between}, then drop; plus a fine tier (every synchronisation operation a decision point, 2 voting threads; two batches of two scenes retrieved before the next submission, deviation bound iterated to 2 quick / 4 thorough; three pipelined batches retrieved by consumer threads, bound 1 quick / 3 thorough): every interleaving of the predict loop, store workers, voting threads and consumer within the bound (window = whole run; bound = preemptions for the 1x1 / retrieve-then-submit configuration, otherwise departures from the deterministic default schedule i.e. delay bounding; bounds iterated 0,1,2,.. and the largest completed one reported per scenario); oracle: one result per submitted scene, one record per detection in order, per scene equal to the simple tracker up to an id bijection, no deadlock / step-cap. A third discipline that violates the proviso (submit a two-scene batch, then the next, before retrieving) must deadlock: built-in detection demo. states = executions.");
     rep.assume("macro-step granularity (named points: worker dequeues a command, distances queued, scene dispatched, vote begin / before each store write / before the result is sent); preemptions inside lock-protected sections are not explored");
     let mut scen = BTreeMap::new();
     let mut total = 0u64;
@@ -357,6 +360,12 @@ pub fn run_check(tier: Tier) -> Report {
     for kind in [Kind::BatchSort, Kind::BatchVisualSort] {
         scenarios.push((kind, 1, 1, 6, 0, Pos::Iou(0.3)));
         scenarios.push((kind, 1, 2, 7, 0, Pos::Iou(0.3)));
+    }
+    // an empty batch between two batches that share scenes, results retrieved by lagging consumer threads
+    for kind in [Kind::BatchSort, Kind::BatchVisualSort] {
+        for vs in [1usize, 2] {
+            scenarios.push((kind, 1, vs, 9, 1, Pos::Iou(0.3)));
+        }
     }
     // idle tracks listed between the retrievals of one batch's results
     for kind in [Kind::BatchSort, Kind::BatchVisualSort] {
